@@ -3,6 +3,7 @@
 pub mod gen;
 pub mod la;
 pub mod oracle;
+pub mod poison;
 pub mod problem;
 pub mod procmon;
 pub mod rng;
@@ -11,11 +12,17 @@ pub mod sc;
 pub mod spy;
 pub mod t_table;
 pub mod tdist;
+pub mod twin;
 pub mod zoo;
 pub mod props {
     pub mod c01;
+    pub mod c02;
+    pub mod c03;
+    pub mod c06;
+    pub mod c07;
     pub mod c08;
     pub mod c09;
+    pub mod c10;
     pub mod c12;
 }
 
@@ -24,4 +31,12 @@ pub fn selftest() -> Result<(), String> {
     tdist::selftest()?;
     zoo::selftest()?;
     Ok(())
+}
+
+/// workloads for the sanitizer engines, selected by property id
+pub fn sanitizer_workload(prop: &str, seed: u64, cases: u64, nmax: usize, len: usize) -> (u64, u64) {
+    match prop {
+        "C10" => props::c10::sanitizer_workload(seed, cases, nmax, len),
+        _ => panic!("no sanitizer workload for {prop}"),
+    }
 }
